@@ -270,7 +270,7 @@ func checkRSA(c rsaCase) (v *mc.Viol, class string) {
 	if mag[0] >= 0x80 {
 		npad = 1
 	}
-	if m := uintMag(c.E); m[0] >= 0x80 {
+	if m := uintMag(c.E); len(m) > 0 && m[0] >= 0x80 {
 		epad = 1
 	}
 	_, outer, _, _ := readTLV(want)
@@ -646,7 +646,7 @@ func main() {
 			bitLens = append(bitLens, b)
 		}
 	}
-	exps := []uint64{3, 17, 255, 65537, 1<<31 - 1, 1<<31 + 1}
+	exps := []uint64{0, 1, 2, 3, 17, 255, 65537, 1<<31 - 1, 1<<31 + 1}
 	// exponents whose DER ends in a byte that text handling treats specially (the exponent is the last
 	// field of the key): TAB, VT, CR, NEL as the low byte, LF CR as the low two; on a subset of lengths
 	expsTail := []uint64{9, 11, 13, 133, 269, 0x0a0d, 65549, 0x2021, 0x3d3d, 0x0001_0000_0d}
